@@ -477,15 +477,19 @@ async fn execute(t: &Template, it: &Item, work: &Path) -> Value {
             let mut a = a.lock().await;
             let _ = a.sign_out().await;
         }
+        let _ = live;
+        let final_live = server_log_hashes(&server, &account_id).await?;
         server.stop().await;
-        // reload the server storage from disc: logs must equal the live ones
+        // the server's logs are faithful: a server restarted on the same
+        // storage serves exactly the logs the live server held
         if fails.is_empty() {
             let server2 = start_server(&work.join("server"), false, None, None).await?;
             let re = server_log_hashes(&server2, &account_id).await?;
             server2.stop().await;
-            let _ = live;
-            let fin_live = re.clone();
-            let _ = fin_live;
+            if re != final_live {
+                let which: Vec<String> = final_live.iter().filter(|(k, v)| re.get(*k) != Some(v)).map(|(k, _)| k.split(':').next().unwrap().to_string()).collect();
+                fails.push(json!({"sig": format!("server_log_differs_after_restart:{}:{}", which.first().cloned().unwrap_or_default(), prek), "what": "after the concurrent syncs a server restarted on the same storage holds different logs than the live server did"}));
+            }
         }
         Ok(json!({"points": points, "schedule": schedule, "outcomes": outcomes, "preemptions": preemptions, "sequential": seq_results, "converged": converged}))
     }
